@@ -82,6 +82,7 @@ type Report struct {
 	extra       map[string]interface{}
 	findings    []Finding
 	harnessErr  []string
+	ntBulk      int64
 }
 
 func NewReport(property, level string) *Report {
@@ -118,6 +119,10 @@ func (r *Report) Nontrivial(key string) {
 	r.nontrivial[h] = struct{}{}
 	r.mu.Unlock()
 }
+// NontrivialBulk adds n cases that are distinct by construction (exhaustive enumeration) and non-trivial by the rule,
+// for spaces too large to keep one key per case.
+func (r *Report) NontrivialBulk(n int64) { r.mu.Lock(); r.ntBulk += n; r.mu.Unlock() }
+
 func (r *Report) Outcome(key string) {
 	if len(key) > 80 {
 		key = shortHash(key)
@@ -256,7 +261,7 @@ func (r *Report) Finish() int {
 	defer r.mu.Unlock()
 	cov := map[string]interface{}{
 		"evaluations":         r.evaluations,
-		"distinct_nontrivial": int64(len(r.nontrivial)),
+		"distinct_nontrivial": int64(len(r.nontrivial)) + r.ntBulk,
 		"rule":                r.Rule,
 		"samples":             r.samples,
 		"exhaustive":          r.exhaustive && len(r.harnessErr) == 0,
@@ -319,7 +324,7 @@ func (r *Report) Finish() int {
 		fmt.Printf("KNOWN-FINDING: property=%s %s (%s)\n", r.Property, f.What, fp)
 	}
 	fmt.Printf("%s %s: evaluations=%d nontrivial=%d states=%d transitions=%d outcomes=%d exhaustive=%v wall=%.1fs\n",
-		r.Property, r.Tier, r.evaluations, len(r.nontrivial), len(r.states), r.transitions, len(r.outcomes),
+		r.Property, r.Tier, r.evaluations, int64(len(r.nontrivial))+r.ntBulk, len(r.states), r.transitions, len(r.outcomes),
 		cov["exhaustive"], time.Since(r.start).Seconds())
 	if len(r.harnessErr) > 0 && len(r.violations) == 0 {
 		for _, e := range r.harnessErr {
